@@ -250,7 +250,9 @@ class SymClient(Client):
         self.event_of = event_of
         # helpers (private / newly introduced functions the rules do not anchor on) are always looked into
         self._user_inline = inline
-        self.inline = (lambda fi: bool(inline(fi)) or repo.is_helper(fi)) if inline is not None else repo.is_helper
+        # ... and so are closures defined inside the analysed function (they see its locals)
+        self.inline = (lambda fi: bool(inline(fi)) or repo.is_helper(fi) or fi.parent is not None) if inline is not None \
+            else (lambda fi: repo.is_helper(fi) or fi.parent is not None)
         self.raises_of = raises_of
         self.branch_hook = branch_hook
         self.store_event = store_event
@@ -782,6 +784,9 @@ class SymClient(Client):
         self.loops.append((self, st, s))
         return [SymState(s.env, s.heap, s.conds, s.trail + (mark,), s.ret)]
 
+    def after_finally(self, returning: SymState, after: SymState) -> SymState:
+        return after.with_ret(returning.ret)
+
     def loop_leave(self, st, s: SymState):
         ex = Event('loopexit', 'L%d' % st.lineno, (), (), (), st.lineno, s.conds, self.f.key)
         return [SymState(s.env, s.heap, s.conds, s.trail + (ex,), s.ret)]
@@ -937,6 +942,11 @@ def loop_body_outcomes(client: SymClient, loop: ast.AST):
     entries = [st for ev, st in client.log if ev.kind == 'loop' and ev.line == loop.lineno]
     if not entries:
         raise AnalysisError('loop at line %d was never entered by the analysis' % loop.lineno)
+    # a loop inside an inlined helper is interpreted by the client that entered it (its function, class and depth)
+    for cl_, node_, _st in getattr(client, 'loops', []):
+        if node_ is loop:
+            client = cl_
+            break
     flow = Flow(client)
     states = set()
     for st in entries:
@@ -953,6 +963,30 @@ def loop_body_outcomes(client: SymClient, loop: ast.AST):
         t, f, exc = flow.cond(loop.test, states)
         states = t
     return flow.run(loop.body, states)
+
+
+def iteration_paths(client: SymClient, loop: ast.AST):
+    """[(state, 'next' | 'stop')] for one iteration of ``loop``: a path that reaches the end of the body (or a
+    ``continue``) goes on only if the loop's own test holds in the state it ends in -- so ``while True: ... if c: break``
+    and ``while flag: ... flag = not c`` give the same classification, with the deciding condition on the path."""
+    o = loop_body_outcomes(client, loop)
+    for cl_, node_, _st in getattr(client, 'loops', []):
+        if node_ is loop:
+            client = cl_
+            break
+    out = []
+    ends = list(o.fall) + list(o.cont)
+    if isinstance(loop, ast.While):
+        flow = Flow(client)
+        for s_ in ends:
+            t, f, _exc = flow.cond(loop.test, {s_})
+            out.extend((x, 'next') for x in t)
+            out.extend((x, 'stop') for x in f)
+    else:
+        out.extend((x, 'next') for x in ends)
+    out.extend((x, 'stop') for x in o.brk)
+    out.extend((x, 'stop') for x, _r in o.ret)
+    return out, o
 
 
 class _ExpandItems(ast.NodeTransformer):
